@@ -149,6 +149,10 @@ func (g *j5Gen) entityPlan(pkg string, k *j5Known, style int, nWords int) *jEnti
 	}
 	// statuses
 	all := []string{"ACTIVE", "INACTIVE", "PENDING", "ARCHIVED"}
+	if rng.Intn(4) == 0 {
+		// a status whose name merely ends the way the implicit zero value's does
+		all = []string{"ACTIVE", "OUTCOME_UNSPECIFIED", "DONE", "ARCHIVED"}
+	}
 	e.Statuses = all[:1+rng.Intn(len(all))]
 	// events
 	evNames := []string{"Created", "Updated", "Archived", "LineAdded"}
